@@ -107,7 +107,7 @@ def gen_case(rng, i):
             # boundary-seeking: the corners of the admissible unit changes as often as its interior
             pick = lambda lo, hi: float([lo * 1.0001, hi * 0.9999, np.exp(rng.uniform(np.log(lo), np.log(hi)))][rng.integers(3)])
             sfac, cfac = pick(s_lo, s_hi), pick(c_lo, c_hi)
-    s_.update({"B": Bm, "op": op, "s": sfac, "c": cfac})
+    s_.update({"B": Bm, "op": op, "s": sfac, "c": cfac, "internal": bool(rng.integers(3) == 0)})
     return s_
 
 
@@ -206,8 +206,19 @@ def chk_case(inp, c):
         tight = op == "fit-tight"
         kw = dict(solver=cp.CLARABEL, tol_gap_abs=1e-9, tol_gap_rel=1e-9, tol_feas=1e-9) if tight else {}
         tau_e, tau_b = (2e-3, 1e-6) if tight else (2e-2, 1e-2)
-        ok_a, f1 = c.try_call(e1.fit, B.copy(), **kw)
-        ok_b, f2 = c.try_call(e2.fit, B2.copy(), **kw)
+        if inp.get("internal", False):
+            # registered-target mode: register_targets(B); fit()  -> est.X, est.B
+            c.cell("api=register_targets+fit()")
+
+            def run(e, Bt):
+                e.register_targets(Bt)
+                e.fit(**kw)
+                return np.array(e.X, dtype=float), np.array(e.B, dtype=float)
+            ok_a, f1 = c.try_call(run, e1, B.copy())
+            ok_b, f2 = c.try_call(run, e2, B2.copy())
+        else:
+            ok_a, f1 = c.try_call(e1.fit, B.copy(), **kw)
+            ok_b, f2 = c.try_call(e2.fit, B2.copy(), **kw)
         if not (ok_a and ok_b):
             judge(False, "fit returns in both unit systems", "fit-raised", err=str(f1 if not ok_a else f2)[:80])
             return
